@@ -9,7 +9,8 @@ same vocabulary, written from the Blue Book / ODL BNF (no pvl code).
 from ..core import SymInt, Ctx
 
 VOCAB = ["a", "b", "=", "1", '"q"', ";", "(", ")", ",", "{", "}", "<m>", "/* c */", "GROUP", "END_GROUP", "OBJECT",
-         "END_OBJECT", "BEGIN_GROUP", "END"]
+         "END_OBJECT", "BEGIN_GROUP", "END", "<m <n>"]
+BADUNITS = "<m <n>"        # what the lexer yields for an unterminated units expression followed by another one
 EOS = len(VOCAB)
 COMMENT = "/* c */"
 BEGIN = {"GROUP": "END_GROUP", "OBJECT": "END_OBJECT", "BEGIN_GROUP": "END_GROUP"}
@@ -23,11 +24,12 @@ class Hang(Exception):
 
 
 class LazyStream:
-    """token choices made on demand; concretises to the list of indices pulled (EOS for the rest)"""
+    """token choices made on demand; concretises to the list of indices pulled (EOS for the rest);
+    *prefix* is a list of concrete token indices that come first"""
 
-    def __init__(self, ctx, k):
-        self.ctx, self.k = ctx, k
-        self.chosen = []
+    def __init__(self, ctx, k, prefix=()):
+        self.ctx, self.k = ctx, k + len(prefix)
+        self.chosen = list(prefix)
 
     def get(self, i):
         while len(self.chosen) <= i:
@@ -98,6 +100,10 @@ class Ref:
         self.i = 0
         self.d = dialect
         self.consumed_end = False
+        # ISIS does not know the BEGIN_ forms: there the word is an ordinary name / unquoted string
+        self.begin = dict(BEGIN) if dialect != "ISIS" else {k: v for k, v in BEGIN.items() if not k.startswith("BEGIN_")}
+        self.names = NAMES if dialect != "ISIS" else NAMES + ("BEGIN_GROUP",)
+        self.keywords = tuple(self.begin) + ENDS + ("END",)
 
     def peek(self):
         return self.t[self.i] if self.i < len(self.t) else None
@@ -129,9 +135,9 @@ class Ref:
                 if top:
                     raise Ill("end statement without a begin statement")
                 return items
-            if x in BEGIN:
+            if x in self.begin:
                 items.append(self.block())
-            elif x in NAMES:
+            elif x in self.names:
                 items.extend(self.assignment())
             else:
                 raise Ill("stray token %r between statements" % x)
@@ -145,12 +151,12 @@ class Ref:
         if self.next() != "=":
             raise Ill("begin statement without '='")
         name = self.next()
-        if name not in NAMES:
+        if name not in self.names:
             raise Ill("begin statement without a block name")
         self.delimiter()
         items = self.statements(top=False)
         end = self.next()
-        if end != BEGIN[kw]:
+        if end != self.begin[kw]:
             raise Ill("block closed by the wrong end statement")
         if self.peek() == "=":
             self.next()
@@ -165,11 +171,11 @@ class Ref:
         if self.next() != "=":
             raise Ill("parameter name without '='")
         x = self.peek()
-        if self.d == "Omni" and (x is None or x in KEYWORDS or x == ";"):
+        if self.d == "Omni" and (x is None or x in self.keywords or x == ";"):
             self.delimiter()
             return [(name, EMPTY)]
         v = self.value()
-        if self.d == "Omni" and self.peek() == "=" and v in NAMES:
+        if self.d == "Omni" and self.peek() == "=" and v in self.names:
             # missing value: what looked like the value is the next parameter name
             self.i -= 1
             return [(name, EMPTY)] + self.assignment()
@@ -182,7 +188,7 @@ class Ref:
             v = 1
         elif x == '"q"':
             v = "q"
-        elif x in NAMES:
+        elif x in self.names:
             v = x
         elif x == "(":
             v = self.items(")")
